@@ -9,11 +9,12 @@ pub mod c11;
 pub mod c12;
 pub mod c14;
 pub mod c15;
+pub mod c16;
 pub mod c19;
 pub mod pipes;
 
 use crate::framework::PropertyCheck;
 
 pub fn all_checks() -> Vec<PropertyCheck> {
-  vec![pipes::check_c01(), pipes::check_c02(), c04::check_def(), c05::check_def(), c06::check_def(), c07::check_def(), c08::check_def(), c09::check_def(), c02t::check_c10(), c11::check_def(), c12::check_def(), c14::check_def(), c15::check_def(), pipes::check_c17(), pipes::check_c18(), c19::check_def()]
+  vec![pipes::check_c01(), pipes::check_c02(), c04::check_def(), c05::check_def(), c06::check_def(), c07::check_def(), c08::check_def(), c09::check_def(), c02t::check_c10(), c11::check_def(), c12::check_def(), c14::check_def(), c15::check_def(), c16::check_def(), pipes::check_c17(), pipes::check_c18(), c19::check_def()]
 }
